@@ -179,3 +179,33 @@ Theorem C03_counters_at_the_boundary :
   = [Some (5, []); Some (6, [tmf]); Some (8, [tmf; tmf; tmf])].
 Proof. exact funcs_at_the_boundary. Qed.
 Print Assumptions C03_counters_at_the_boundary.
+
+(* ---- CheckCommentLineLen (Spec/Width.block_comment_check / line_comment_check: pinned to the source by C03_source_tie
+   and the limits of Gen/Limits; replayed against the implementation by the `blockcomment` command of the driver):
+   which lines of a comment are reported.  That the VALUE of a comment token is its raw text with tabs expanded is
+   C10's theorem; di/trigraphs inside comments are the recorded finding C17-digraph-in-comment-width. *)
+From NV Require Import Proofs.CommentWidth.
+
+Theorem C03_block_comment_check_iff : forall l0 c0 v n,
+  In n (block_comment_check l0 c0 v) <->
+  exists first more i line, split_nl v [] = first :: more /\
+    nth_error ((repeat 32%N (Z.to_nat (c0 - 1)) ++ first) :: more) i = Some line /\ n = (l0 + Z.of_nat i)%Z /\ (80 < zl line)%Z.
+Proof. exact block_comment_check_iff. Qed.
+Print Assumptions C03_block_comment_check_iff.
+
+Theorem C03_block_comment_lines_are_the_value : forall v, join_nl (split_nl v []) = v.
+Proof. exact block_comment_lines_are_the_value. Qed.
+Print Assumptions C03_block_comment_lines_are_the_value.
+
+Theorem C03_block_comment_one_line : forall l0 c0 v, forallb (fun c => negb (N.eqb c 10)) v = true -> (1 <= c0)%Z ->
+  block_comment_check l0 c0 v = if (80 <? (c0 - 1) + zl v)%Z then [l0] else [].
+Proof. exact block_comment_one_line. Qed.
+Print Assumptions C03_block_comment_one_line.
+
+Theorem C03_line_comment_check_iff : forall c0 v, line_comment_check c0 v = true <-> (80 < c0 + zl v - 1)%Z.
+Proof. exact line_comment_check_iff. Qed.
+Print Assumptions C03_line_comment_check_iff.
+
+Example C03_block_comment_example :
+  block_comment_check 5 3 (s "/* a" ++ 10%N :: repeat 120%N 81 ++ 10%N :: s "*/") = [6%Z].
+Proof. exact block_comment_example. Qed.
